@@ -241,6 +241,37 @@ def run(ctx):
             guarded(ctx, 'C20.R2', f, e, lambda a: True, None, 'BuildFinished unlocks unconditionally', construct='console-lock:BuildFinished-conditional', forbidden=True)
         else:
             guarded(ctx, 'C20.R2', f, e, console, True, 'only a console-pool edge (un)locks the terminal', construct='console-lock:non-console-edge')
+    # what BuildEdgeStarted does for a console-pool edge does not depend on anything else: in the world "console edge,
+    # not a dry run" the lock is reached whatever the terminal is (piped output, -v, TERM=dumb interleave just the same),
+    # and the start line of a console edge is printed in a dry run too (it is the only line such an edge ever gets)
+    def world(f, fixed):
+        """edge_ok that follows a branch only if it is compatible with the fixed truth values {predicate: bool}"""
+        def ok(b, i, s2):
+            for k, pol, atom in f.edge_facts(b, i):
+                if '&&' in k or '||' in k:
+                    continue
+                for pred, val in fixed:
+                    if pred(atom) and pol != val:
+                        return False
+            return True
+        return ok
+    is_console = lambda a: mentions_call(a, 'Edge::use_console') or mentions_field(a, 'Edge::pool_') or 'kConsolePool' in dstr(a)
+    is_dry = lambda a: mentions_field(a, 'BuildConfig::dry_run')
+    is_smart = lambda a: mentions_call(a, 'LinePrinter::is_smart_terminal') or mentions_field(a, 'LinePrinter::smart_terminal_')
+    for smart in (True, False):
+        for e in [x for x in best.calls('LinePrinter::SetConsoleLocked') if const_value(x['args'][0]) == 1]:
+            r = best.find_path(None, lambda x: x is e, from_succ=best.entry, sensitive=False,
+                               edge_ok=world(best, [(is_console, True), (is_dry, False), (is_smart, smart)]))
+            ctx.check('C20.R2', r is not None, best.name, 'console-lock:depends-on-terminal', best.where(e),
+                      'a console-pool edge locks the terminal at start whether or not the terminal is smart (%s)' % smart)
+    for dry in (True, False):
+        ps = list(best.calls('StatusPrinter::PrintStatus'))
+        r = None
+        for e in ps:
+            r = r or best.find_path(None, lambda x: x is e, from_succ=best.entry, sensitive=False,
+                                    edge_ok=world(best, [(is_console, True), (is_dry, dry), (is_smart, False)]))
+        ctx.check('C20.R2', r is not None, best.name, 'console-start-line:depends-on-dry-run', best.loc,
+                  'the start of a console-pool edge is announced on a dumb terminal / pipe, dry run or not (dry_run=%s)' % dry)
     who_may_write(ctx, 'C20.R2', 'LinePrinter::console_locked_', {'LinePrinter::SetConsoleLocked': 'the only switch', 'LinePrinter::LinePrinter': 'init'}, 'lock flag')
     scl = prog.fn('LinePrinter::SetConsoleLocked')
     pob = prog.fn('LinePrinter::PrintOrBuffer')
@@ -282,7 +313,7 @@ def run(ctx):
         if mentions_var(e.get('args'), 'to_print'):
             ctx.check('C20.R2', 'to_print.size()' in dstr(e.get('args')), pon.name, 'PrintOnNewLine:length', pon.where(e),
                       'text is passed on with its full size()')
-    ctx.floor('C20.R2', 16)
+    ctx.floor('C20.R2', 20)
 
     # ---- O2: the line printer delivers ------------------------------------------------------------------
     R('C20.O2', 'O', 'LinePrinter::Print and PrintOrBuffer never drop what they are given: every path through them either '
